@@ -1,7 +1,7 @@
 /-
   Driver/C18.lean — line-protocol front end of Model/Traceparent.lean.
     stream `c18` : (c18 (decisions B…) OUTSIDE P…)
-        P ::= event | (span P…) | (spant P…) | (push (TRACE SPAN FLAGS) P…) | (carry P…)
+        P ::= event | (span P…) | (spant P…) | (spana P…) | (push (TRACE SPAN FLAGS) P…) | (carry P…)
         TRACE, SPAN ::= none | N with N ≥ 1000000 (ids that arrive in headers; rng-drawn ids are the counter 1,2,3…)
     → the observation log, oldest first, then `calls=N cur=(T S F)`
 -/
@@ -30,6 +30,7 @@ partial def prog? : Sexp → Option Prog
   | .atom "event" => some .event
   | .list (.atom "span" :: cs) => (progs? cs).map Prog.span
   | .list (.atom "spant" :: cs) => (progs? cs).map Prog.spanThread
+  | .list (.atom "spana" :: cs) => (progs? cs).map Prog.spanAsync
   | .list (.atom "carry" :: cs) => (progs? cs).map Prog.carry
   | .list (.atom "push" :: tp :: cs) => do
     let tp ← tp? tp
